@@ -699,4 +699,4 @@ def rules(repo, tier):
                                                       'before it is complete - a later call with the same object and other contents must not be answered from it',
                                                       ['pypose.lietensor.lietensor', 'pypose.lietensor.operation', 'pypose.lietensor.basics', 'pypose.lietensor.utils', 'pypose.lietensor.convert'], floor=3),
             rule_optional(repo, 'C06.OPT', ['pypose.lietensor.lietensor', 'pypose.lietensor.operation', 'pypose.lietensor.basics', 'pypose.lietensor.utils', 'pypose.lietensor.convert'])] + mode_rules(repo, 'C06', ['pypose.lietensor.lietensor', 'pypose.lietensor.operation', 'pypose.lietensor.basics', 'pypose.lietensor.utils', 'pypose.lietensor.convert']) + [rule_callsig(repo, 'C06.SIG', ['pypose.lietensor.lietensor', 'pypose.lietensor.operation', 'pypose.lietensor.basics', 'pypose.lietensor.utils', 'pypose.lietensor.convert']), rule_docsig(repo, 'C06.DOC', ['pypose.lietensor.lietensor', 'pypose.lietensor.operation', 'pypose.lietensor.basics', 'pypose.lietensor.utils', 'pypose.lietensor.convert'])] + [
-            rule_axisdefault(repo, 'C06.AXDEF', ['pypose.lietensor.lietensor', 'pypose.lietensor.operation', 'pypose.lietensor.basics', 'pypose.lietensor.utils', 'pypose.lietensor.convert', 'pypose.basics.ops']), __import__('sa.axisdefault', fromlist=['x']).rule_frontaxis(repo, 'C06.BAX', ['pypose.lietensor.lietensor', 'pypose.lietensor.operation', 'pypose.lietensor.basics', 'pypose.lietensor.utils', 'pypose.lietensor.convert']), __import__('sa.axisdefault', fromlist=['x']).rule_regroup(repo, 'C06.REGROUP', ['pypose.lietensor.lietensor', 'pypose.lietensor.operation', 'pypose.lietensor.basics', 'pypose.lietensor.utils', 'pypose.lietensor.convert']), __import__('sa.unused', fromlist=['x']).rule_unused(repo, 'C06.UNUSEDF', ['pypose.func.jac'], floor=1), __import__('sa.axisdefault', fromlist=['x']).rule_viewarg(repo, 'C06.VIEW', ['pypose.lietensor.lietensor', 'pypose.lietensor.operation', 'pypose.lietensor.basics', 'pypose.lietensor.convert', 'pypose.basics.ops']), __import__('sa.axisdefault', fromlist=['x']).rule_batchbranch(repo, 'C06.BIF', ['pypose.lietensor.lietensor', 'pypose.lietensor.operation', 'pypose.lietensor.basics', 'pypose.basics.ops'])]
+            rule_axisdefault(repo, 'C06.AXDEF', ['pypose.lietensor.lietensor', 'pypose.lietensor.operation', 'pypose.lietensor.basics', 'pypose.lietensor.utils', 'pypose.lietensor.convert', 'pypose.basics.ops']), __import__('sa.axisdefault', fromlist=['x']).rule_frontaxis(repo, 'C06.BAX', ['pypose.lietensor.lietensor', 'pypose.lietensor.operation', 'pypose.lietensor.basics', 'pypose.lietensor.utils', 'pypose.lietensor.convert']), __import__('sa.axisdefault', fromlist=['x']).rule_regroup(repo, 'C06.REGROUP', ['pypose.lietensor.lietensor', 'pypose.lietensor.operation', 'pypose.lietensor.basics', 'pypose.lietensor.utils', 'pypose.lietensor.convert']), __import__('sa.axisdefault', fromlist=['x']).rule_zerocmp(repo, 'C06.ZEROCMP', ['pypose.lietensor.lietensor', 'pypose.lietensor.operation', 'pypose.lietensor.basics', 'pypose.lietensor.utils', 'pypose.lietensor.convert']), __import__('sa.unused', fromlist=['x']).rule_unused(repo, 'C06.UNUSEDF', ['pypose.func.jac'], floor=1), __import__('sa.axisdefault', fromlist=['x']).rule_viewarg(repo, 'C06.VIEW', ['pypose.lietensor.lietensor', 'pypose.lietensor.operation', 'pypose.lietensor.basics', 'pypose.lietensor.convert', 'pypose.basics.ops']), __import__('sa.axisdefault', fromlist=['x']).rule_batchbranch(repo, 'C06.BIF', ['pypose.lietensor.lietensor', 'pypose.lietensor.operation', 'pypose.lietensor.basics', 'pypose.basics.ops'])]
